@@ -242,3 +242,145 @@ token_h! {
     token_p0_dot_f4: 14, Some(0), memchr_at0;
     token_p2_dot_f4_dot: 16, Some(2), memchr_at2;
 }
+
+
+// ------------------------------------------------------------------------------------------------
+// C13 (L3): Key::id() hashes exactly (id header, PASERK text of the key) and returns the digest
+// ------------------------------------------------------------------------------------------------
+fn id_composition<K: paseto_core::key::KeyType>(id_header: &[u8], text_header: &[u8])
+where
+    AV: paseto_core::key::HasKey<K, Key = AK>,
+{
+    let kt = KeyText::<AV, K>::from_raw_bytes(&[9, 9, 9, 9]);
+    let key: Key<AV, K> = match kt.try_into() {
+        Ok(k) => k,
+        Err(e) => {
+            let e: PasetoError = e;
+            core::mem::forget(e);
+            kani::assume(false);
+            unreachable!()
+        }
+    };
+    // the backend invented arbitrary key material; read it back through the public API
+    let raw = key.expose_key();
+    let mut kb = [0u8; 4];
+    kb.copy_from_slice(raw.as_raw_bytes());
+    let before = unsafe { ID_CALLS };
+    let id = key.id();
+    assert!(unsafe { ID_CALLS } == before + 1);
+    let hdr = unsafe { ID_HEADER_SEEN };
+    assert!(bytes_eq(hdr.as_bytes(), id_header), "wrong id header hashed");
+    // expected key text: "k4" ‖ K::HEADER ‖ base64url(key bytes)
+    let mut want = [0u8; 32];
+    let mut n = 0;
+    while n < text_header.len() {
+        want[n] = text_header[n];
+        n += 1;
+    }
+    n += ref_encode(&kb, &mut want[n..]);
+    let (seen, len) = unsafe { (ID_DATA_SEEN, ID_DATA_LEN) };
+    assert!(len == n && bytes_eq(&seen[..len], &want[..n]), "the id is not computed over the key's PASERK text");
+    assert!(bytes_eq(id.as_bytes(), unsafe { &ID_RETURNED }), "the id is not the digest returned by the backend");
+    // ids of the same key agree (stable), and the id text is "k4" ‖ id header ‖ base64url(33 bytes)
+    let mut sink = Sink::<80>::new();
+    assert!(display_into(&id, &mut sink));
+    let mut w2 = [0u8; 80];
+    let mut m = 0;
+    w2[0] = b'k';
+    w2[1] = b'4';
+    m += 2;
+    let mut i = 0;
+    while i < id_header.len() {
+        w2[m] = id_header[i];
+        m += 1;
+        i += 1;
+    }
+    m += ref_encode(id.as_bytes(), &mut w2[m..]);
+    assert!(bytes_eq(sink.bytes(), &w2[..m]), "key id text is not header + base64url(33 bytes)");
+    kani::cover!(true);
+}
+#[kani::proof]
+#[kani::unwind(64)]
+fn c13_id_composition_local() {
+    id_composition::<Local>(b".lid.", b"k4.local.");
+}
+#[kani::proof]
+#[kani::unwind(64)]
+fn c13_id_composition_secret() {
+    id_composition::<Secret>(b".sid.", b"k4.secret.");
+}
+#[kani::proof]
+#[kani::unwind(64)]
+fn c13_id_composition_public() {
+    id_composition::<Public>(b".pid.", b"k4.public.");
+}
+
+// ------------------------------------------------------------------------------------------------
+// C10: header constants are pairwise distinct and prefix-free; no string is accepted by two parsers
+// ------------------------------------------------------------------------------------------------
+#[kani::proof]
+#[kani::unwind(24)]
+fn c10_header_table() {
+    use paseto_core::key::{KeyType, SealingKey};
+    let heads: [&str; 11] = [
+        <Local as KeyType>::HEADER,
+        <Secret as KeyType>::HEADER,
+        <Public as KeyType>::HEADER,
+        <Local as KeyType>::ID_HEADER,
+        <Secret as KeyType>::ID_HEADER,
+        <Public as KeyType>::ID_HEADER,
+        <Local as SealingKey>::PIE_WRAP_HEADER,
+        <Secret as SealingKey>::PIE_WRAP_HEADER,
+        <Local as SealingKey>::PW_WRAP_HEADER,
+        <Secret as SealingKey>::PW_WRAP_HEADER,
+        ".seal.",
+    ];
+    let mut i = 0;
+    while i < 11 {
+        let a = heads[i].as_bytes();
+        assert!(a.len() >= 3 && a[0] == b'.' && a[a.len() - 1] == b'.', "a kind header does not start and end with '.'");
+        let mut j = 0;
+        while j < 11 {
+            if i != j {
+                let b = heads[j].as_bytes();
+                // b must not extend a (then "k4" ‖ b ‖ tail could also parse as "k4" ‖ a ‖ tail')
+                assert!(!starts_with(b, a), "one kind header is a prefix of another");
+            }
+            j += 1;
+        }
+        i += 1;
+    }
+    // the PKE key kinds deliberately share the text headers of the signing keys
+    assert!(bytes_eq(<PkePublic as KeyType>::HEADER.as_bytes(), <Public as KeyType>::HEADER.as_bytes()));
+    assert!(bytes_eq(<PkeSecret as KeyType>::HEADER.as_bytes(), <Secret as KeyType>::HEADER.as_bytes()));
+    kani::cover!(i == 11);
+}
+
+/// one symbolic 16-byte string offered to eight PASERK parsers (two versions, every kind whose header
+/// fits): at most one accepts
+#[kani::proof]
+#[kani::unwind(64)]
+fn c10_no_string_accepted_twice() {
+    let s: [u8; 16] = kani::any();
+    let st = unsafe { core::str::from_utf8_unchecked(&s) };
+    let mut n = 0u32;
+    macro_rules! tryp {
+        ($t:ty) => {{
+            let r = <$t>::from_str(st);
+            if r.is_ok() {
+                n += 1;
+            }
+            core::mem::forget(r);
+        }};
+    }
+    tryp!(KeyText<AV, Local>);
+    tryp!(KeyText<AV, Secret>);
+    tryp!(KeyText<AV, Public>);
+    tryp!(KeyText<AV3, Local>);
+    tryp!(KeyText<AV3, Secret>);
+    tryp!(PasswordWrappedKey<AV, Local>);
+    tryp!(PasswordWrappedKey<AV, Secret>);
+    tryp!(SealedKey<AV>);
+    assert!(n <= 1, "a string is accepted by two different parsers");
+    kani::cover!(n == 1);
+}
